@@ -153,7 +153,7 @@ pub(super) fn read_fleet(api_problem: &ApiProblem, props: &ProblemProperties, co
                 if props.has_multi_dimen_capacity {
                     dimens.set_vehicle_capacity(MultiDimLoad::new(vehicle.capacity.clone()));
                 } else {
-                    dimens.set_vehicle_capacity(SingleDimLoad::new(*vehicle.capacity.first().unwrap()));
+                    dimens.set_vehicle_capacity(SingleDimLoad::new(vehicle.capacity.first().copied().unwrap_or_default()));
                 }
 
                 if let Some(skills) = vehicle.skills.as_ref() {
